@@ -254,21 +254,33 @@ theorem var_defined (env : Bindings) (v : String) (args rest val : List Tok)
   simp only [resolveVar, resTok, hv, hargs, show lower "var" = "var" by decide]
   simp [expandVar_some env v [v] val hdef hne, hl]
 
-/-- (part 2): an undefined reference with a fallback without var() is replaced by the fallback
-    arguments (as ParseFunction lists them: whitespace AND COMMAS removed — see KF08-6) -/
+/-- (part 2): an undefined reference is replaced by its fallback: everything after the first comma of
+    the raw arguments, whitespace/comments dropped, the fallback's own commas kept -/
 theorem var_fallback (env : Bindings) (v : String) (args : List Tok)
     (hname : hasPrefix "--" v = true)
     (hundef : env.lookup v = none)
     (hplain : hasVarList args = false) (rest : List Tok)
     (hargs : parseArgs args false = some (.ident v :: rest)) :
-    resolveVar env (.fn "var" args) = some (resFallback (expandVar env) [v] args true) := by
+    resolveVar env (.fn "var" args) = some (resFallback (expandVar env) [v] args false) := by
   have hv : hasVar (.fn "var" args) = true := by
     simp [hasVar, hargs, headIsVarName, hname, show lower "var" = "var" by decide]
   simp only [resolveVar, resTok, hv, hargs, show lower "var" = "var" by decide]
   simp [expandVar_none env v [v] hundef]
 
-example : resolveVar [] (.fn "var" [.ident "--u", .lit ",", .ws, .dim "1" "px", .ws, .dim "2" "px"])
-    = some [.dim "1" "px", .dim "2" "px"] := by c08_eval
+/-- (part 2, explicit): `var(--v , fb…)` with `--v` undefined and a fallback without var(): the result is
+    the fallback with whitespace/comments dropped and ITS OWN COMMAS PRESERVED -/
+theorem var_fallback_commas_preserved (env : Bindings) (v : String) (fb rest : List Tok)
+    (hname : hasPrefix "--" v = true)
+    (hundef : env.lookup v = none)
+    (hplain : hasVarList fb = false)
+    (hargs : parseArgs (.ident v :: .lit "," :: fb) false = some (.ident v :: rest)) :
+    resolveVar env (.fn "var" (.ident v :: .lit "," :: fb)) = some (removeWhitespace fb) := by
+  have hp : hasVarList (.ident v :: .lit "," :: fb) = false := by simp [hasVarList, hasVar, hplain]
+  rw [var_fallback env v _ hname hundef hp rest hargs]
+  simp [resFallback, resFallback_plain _ _ fb hplain]
+
+example : resolveVar [] (.fn "var" [.ident "--u", .lit ",", .ws, .ident "Arial", .lit ",", .ws, .ident "serif"])
+    = some [.ident "Arial", .lit ",", .ident "serif"] := by c08_eval
 
 /-- (part 3): an undefined reference without fallback yields no token; alone in a declaration this
     is "no value": invalid at computed-value time -/
@@ -299,12 +311,12 @@ example : solveTokens [("--a", [.num "10"])]
   var_is_substitution (full statement, NOT proved): for every `env` and every token list `ts`,
     specResolve env fuel ts = .toks r  →  solveTokens env ts ≈ r   and
     specResolve env fuel ts = .invalid →  cascadePending … = .invalid,
-  for a fuel larger than the unfolding.  It is FALSE on the current code in two documented ways
-  (negation witnesses below; KF08-4 / KF08-6): a CYCLIC reference inside a longer value is replaced
-  by nothing instead of invalidating the declaration, and the commas of a fallback are dropped.
-  Parts 1–3 above are the proved fragment.  (An UNDEFINED reference without fallback inside a longer
-  value is also replaced by nothing — `padding: var(--undef) 2px` computes 2px — which CSS Variables
-  calls invalid at computed-value time; the property text is silent there, the spec follows the code.)
+  for a fuel larger than the unfolding.  It is FALSE on the current code in one documented way
+  (negation witness below; KF08-4): a CYCLIC reference inside a longer value is replaced by nothing
+  instead of invalidating the declaration.  The parts above are the proved fragment.
+  (An UNDEFINED reference without fallback inside a longer value is also replaced by nothing —
+  `padding: var(--undef) 2px` computes 2px — which CSS Variables calls invalid at computed-value time;
+  the property text is silent there, the spec follows the code.)
 -/
 
 /-- witness (KF08-4): `--s: var(--s)`, `padding: var(--s) 2px` resolves to `2px`; the property text
@@ -325,10 +337,10 @@ theorem cyclic_with_fallback_invalid :
   · c08_eval
   · rfl
 
-/-- witness (KF08-6): the commas of a fallback are dropped -/
-theorem witness_fallback_commas_dropped :
+/-- the commas of a fallback are kept: model and specification agree (was KF08-6, fixed bdd6432) -/
+theorem fallback_commas_agree_with_spec :
     solveTokens [] [.fn "var" [.ident "--u", .lit ",", .ident "Arial", .lit ",", .ident "serif"]]
-      = [.ident "Arial", .ident "serif"] ∧
+      = [.ident "Arial", .lit ",", .ident "serif"] ∧
     specResolve [] 100 [.fn "var" [.ident "--u", .lit ",", .ident "Arial", .lit ",", .ident "serif"]]
       = .toks [.ident "Arial", .lit ",", .ident "serif"] := by
   constructor
